@@ -69,6 +69,99 @@ def run(tier: str, seed: int, reg: Any, jobs: int = 16) -> list:
             except Exception as e:  # pylint: disable=broad-except
                 if len(fails) < 5 and type(e).__name__ not in ("SPSDKUnsupportedImageType",):
                     fails.append({"inputs": {"family": fam, "image": name}, "detail": f"{type(e).__name__}: {e}", "obligation": "export-parse-reexport"})
-    return [{"name": "key-less MBI compositions: export / header decode / parse / re-export", "function": "spsdk.image.mbi.mbi:MasterBootImage",
+    signed = _signed_v1(tier, rnd)
+    return [signed, {"name": "key-less MBI compositions: export / header decode / parse / re-export", "function": "spsdk.image.mbi.mbi:MasterBootImage",
              "method": "every distinct (mixin list, image type) in the live database that needs no keys", "bound": f"{built} built of {n} compositions",
              "cases": max(built, 1), "label": "bounded", "failures": fails}]
+
+
+def _signed_v1(tier: str, rnd: Any) -> dict:
+    """Certificate-block-v1 signed images (RSA-2048 test keys of the repository) decoded by hand: the IVT words describe the emitted bytes,
+    the certificate block is where word 0x28 says, relocation entries describe their images, the RSA signature verifies independently."""
+    import os
+    import struct
+
+    from cryptography import x509
+    from cryptography.hazmat.primitives import hashes
+    from cryptography.hazmat.primitives.asymmetric import padding
+
+    from spsdk.crypto.certificate import Certificate
+    from spsdk.crypto.signature_provider import SignatureProvider
+    from spsdk.image.mbi.mbi import create_mbi_class
+    from spsdk.image.mbi.mbi_mixin import MultipleImageEntry, MultipleImageTable
+    from spsdk.image.trustzone import TrustZone
+    from spsdk.utils.crypto.cert_blocks import CertBlockV1
+
+    repo = os.environ.get("VF_REPO", "/repo")
+    keys = os.path.join(repo, "tests", "image", "mbi", "data", "keys_and_certs")
+    der = open(os.path.join(keys, "selfsign_2048_v3.der.crt"), "rb").read()
+    fails: list = []
+    n = 0
+
+    def pad4(v: int) -> int:
+        return (v + 3) & ~3
+
+    cases = []
+    for app_len in ([0x400, 0x3FD] if tier == "quick" else [0x400, 0x3FD, 0x401, 0x1232, 0x2000]):
+        for k in (0, 1, 2):
+            cases.append(("rt5xx", "signed_ram", app_len, k, True))
+        cases.append(("lpc55s6x", "signed_xip", app_len, 0, False))
+    for fam, cname, app_len, k, has_hmac in cases:
+        n += 1
+        label = {"family": fam, "image": cname, "app_len": hex(app_len), "relocation_entries": k}
+        try:
+            app = bytearray((7 * i + 3) & 0xFF for i in range(app_len))
+            app[0x20:0x2C] = bytes(12)
+            app[0x34:0x38] = bytes(4)
+            images = [bytes((11 * i + 5 + j) & 0xFF for i in range(366 - 6 * j)) for j in range(k)]
+            table = None
+            if images:
+                table = MultipleImageTable()
+                for j, img in enumerate(images):
+                    table.add_entry(MultipleImageEntry(img, 0x80000 + 0x1000 * j))
+            blk = CertBlockV1(build_number=1)
+            blk.add_certificate(der)
+            blk.set_root_key_hash(0, Certificate.parse(der))
+            kw: dict = dict(app=bytes(app), trust_zone=TrustZone.disabled(), cert_block=blk,
+                            signature_provider=SignatureProvider.create(f"type=file;file_path={os.path.join(keys, 'selfsign_privatekey_rsa2048.pem')}"))
+            if has_hmac:
+                kw.update(app_table=table, load_address=0x20080000, hmac_key="E39FD7AB61AE6DDDA37158A0FC3008C6D61100A03C7516EA1BE55A39F546BAD5", key_store=None)
+            image = create_mbi_class(cname, fam)(**kw).export()
+            raw = image[:0x40] + image[0x60:] if has_hmac else image
+            total_len, flags, cert_offset = struct.unpack_from("<3I", image, 0x20)
+            problems = []
+            reloc_len = sum(pad4(len(i)) for i in images) + 16 * (len(images) + 1) if images else 0
+            expected = pad4(app_len) + reloc_len
+            if total_len != len(image):
+                problems.append(f"IVT total length {total_len} != emitted {len(image)}")
+            if raw[expected: expected + 4] != b"cert":
+                problems.append(f"no certificate block at the independently computed place {expected:#x}")
+            if cert_offset != expected:
+                problems.append(f"IVT word 0x28 says the certificate block is at {cert_offset:#x}, it was emitted at {expected:#x}")
+            if bool(flags & 0x800) != bool(images):
+                problems.append(f"relocation flag in {flags:#x}")
+            if images and not problems:
+                marker, _ver, count, entries_ptr = struct.unpack_from("<4I", raw, expected - 16)
+                if (marker, count) != (0x4C54424C, len(images)):
+                    problems.append("relocation table header")
+                else:
+                    for j, img in enumerate(images):
+                        src, _dst, size, _f = struct.unpack_from("<4I", raw, entries_ptr + 16 * j)
+                        if raw[src: src + size] != img:
+                            problems.append(f"relocation entry {j} does not describe its image")
+            if not problems:
+                (cert_len,) = struct.unpack_from("<I", raw, expected + 32)
+                c = raw[expected + 36: expected + 36 + cert_len]
+                c = c[: 4 + int.from_bytes(c[2:4], "big")]
+                try:
+                    x509.load_der_x509_certificate(c).public_key().verify(raw[-256:], raw[:-256], padding.PKCS1v15(), hashes.SHA256())
+                except Exception as e:  # pylint: disable=broad-except
+                    problems.append(f"RSA signature over the image does not verify independently ({type(e).__name__})")
+            if problems and len(fails) < 5:
+                fails.append({"inputs": label, "detail": "; ".join(problems), "obligation": "signed-image-header-describes-the-bytes"})
+        except Exception as e:  # pylint: disable=broad-except
+            if len(fails) < 5:
+                fails.append({"inputs": label, "detail": f"{type(e).__name__}: {e}", "obligation": "signed-image-header-describes-the-bytes"})
+    return {"name": "certificate-block-v1 signed images decoded by hand", "function": "spsdk.image.mbi.mbi:MasterBootImage.export (signed_ram / signed_xip)",
+            "method": "RSA-2048 repository test keys; with and without relocation table; IVT words, cert block position, relocation entries, independent "
+                      "signature verification", "bound": f"{n} images", "cases": n, "label": "bounded", "failures": fails}
